@@ -20,12 +20,14 @@ class GuardScheduler:
         self.src = src
 
     def line_text(self, no: int) -> str:
-        return self.src[no - self.first].strip()
+        import linecache
+
+        return linecache.getline(self.code.co_filename, no).strip()
 
     def reset_class_state(self):
         self.TS.active_in_thread = None
 
-    def run(self, schedule: list[int], nthreads: int = 2, preowner: int | None = None):
+    def run(self, schedule: list[int], nthreads: int = 2, preowner: int | None = None, region: str = 'guard'):
         """Run `nthreads` threads, each constructing a store, granting one traced line per schedule entry.
         Returns (results, line traces, blocked grants)."""
         self.reset_class_state()
@@ -37,16 +39,33 @@ class GuardScheduler:
         idents: dict[int, int] = {}
         code, guard_end = self.code, self.guard_end
 
+        fname = code.co_filename
+        depth = {i: 0 for i in range(nthreads)}  # > 0 while inside TrajectoryStore.__init__
+
         def make_tracer(tid):
             def local(frame, event, arg):
-                if event == 'line' and frame.f_code is code and frame.f_lineno < guard_end:
-                    lines[tid].append(frame.f_lineno)
-                    arrived[tid].set()
-                    sem[tid].acquire()
+                if region == 'guard':
+                    if event == 'line' and frame.f_code is code and frame.f_lineno < guard_end:
+                        lines[tid].append(frame.f_lineno)
+                        arrived[tid].set()
+                        sem[tid].acquire()
+                else:
+                    # whole constructor: every line of store.py executed while __init__ is on the stack
+                    if event == 'line' and depth[tid] > 0 and frame.f_code.co_filename == fname:
+                        lines[tid].append(frame.f_lineno)
+                        arrived[tid].set()
+                        sem[tid].acquire()
+                    elif event == 'return' and frame.f_code is code:
+                        depth[tid] -= 1
                 return local
 
             def glob(frame, event, arg):
-                return local if frame.f_code is code else None
+                if frame.f_code is code:
+                    depth[tid] += 1
+                    return local
+                if region != 'guard' and depth[tid] > 0 and frame.f_code.co_filename == fname:
+                    return local
+                return None
 
             return glob
 
